@@ -120,7 +120,7 @@ def L.maxK (l : L) : Nat := l.size * l.b2k
 /-- glwe_from_lwe_tmp_bytes(glwe, lwe, key) -/
 def tbGlweFromLwe (be : BE) (n : Nat) (res : G) (lwe : L) (k : K) : Nat :=
   let lvl0 := vecBytes n 2 (ceilDiv (max lwe.maxK res.maxK) k.b2k)
-  let lvl1ks := tbGlweKeyswitch be n res res k
+  let lvl1ks := tbGlweKeyswitch be n res ⟨1, ceilDiv lwe.maxK k.b2k, k.b2k⟩ k
   let lvl1conv := if lwe.b2k = k.b2k then 0 else vecBytes n 1 lwe.size + normTmp n
   lvl0 + max lvl1ks lvl1conv
 
@@ -164,12 +164,12 @@ def treeLweKeyswitch (be : BE) (n : Nat) (res a : L) (k : K) : AllocTree :=
 the GLWE query, asserted at entry, then one GLWE operation (which asserts again) per (row, column) -/
 def treeRows (tb cnt : Nat) (t : AllocTree) : AllocTree := .need tb (loop cnt t)
 
-/-- ggsw_expand_rows_tmp_bytes(res, tsk) (= ggsw_from_gglwe_tmp_bytes) -/
+/-- ggsw_expand_rows_tmp_bytes(res, tsk) (= ggsw_from_gglwe_tmp_bytes); the Rust `cols - 1` is `rank` -/
 def tbGgswExpandRows (be : BE) (n : Nat) (res : G) (t : K) : Nat :=
   let cols := res.rank + 1
   let aSize := ceilDiv res.maxK t.b2k
-  let lvl0 := dftBytes be n (cols - 1) aSize + vecBytes n 1 aSize
-  let lvl1 := dftBytes be n cols aSize + max (tbGglweProduct be n aSize t) (bigNormTmp be n)
+  let lvl0 := dftBytes be n res.rank aSize + vecBytes n 1 aSize
+  let lvl1 := dftBytes be n cols t.size + max (tbGglweProduct be n aSize t) (bigNormTmp be n)
   let lvl2 := if res.b2k = t.b2k then 0 else normTmp n
   lvl0 + max lvl1 lvl2
 
@@ -179,13 +179,13 @@ def treeGgswExpandRows (be : BE) (n dnum : Nat) (res : G) (t : K) : AllocTree :=
   let cols := res.rank + 1
   let aSize := ceilDiv res.maxK t.b2k
   .need (tbGgswExpandRows be n res t)
-    (.take (dftBytes be n (cols - 1) aSize)
+    (.take (dftBytes be n res.rank aSize)
       (.take (vecBytes n 1 aSize)
         (loop dnum
           (.alt (if res.b2k = t.b2k then .done else treeNormalize n)
-            (loop (cols - 1)
+            (loop res.rank
               (.take (dftBytes be n cols t.size)
-                (.alt (treeGglweProduct be n (cols - 1) aSize cols t) (loop cols (treeBigNormalize be n)))))))))
+                (.alt (treeGglweProduct be n res.rank aSize cols t) (loop cols (treeBigNormalize be n)))))))))
 
 /-- ggsw_keyswitch_tmp_bytes(res, a, key, tsk) -/
 def tbGgswKeyswitch (be : BE) (n : Nat) (res a : G) (k t : K) : Nat :=
@@ -223,12 +223,10 @@ def treeAtkAutomorphismAssign (be : BE) (n cnt : Nat) (res : G) (k : K) : AllocT
 
 /-! ### glwe_mul_const -/
 
-/-- glwe_mul_const_tmp_bytes(res, a, b_size).  The hal delegate of `cnv_by_const_apply_tmp_bytes` forwards
-its first two arguments unchanged to an implementation that reads them as `(cnv_offset, res_size)`, so the
-value passed as `cnv_offset` (`max(a.size, b_size)`) is what the formula uses as result size. -/
+/-- glwe_mul_const_tmp_bytes(res, a, b_size): the accumulator is sized for the full product -/
 def tbGlweMulConst (be : BE) (n : Nat) (res a : G) (bSize : Nat) : Nat :=
-  bigBytes be n 1 (ceilDiv (res.size * res.b2k) a.b2k) +
-    max (cnvByConstTmp be (max a.size bSize) a.size bSize) (bigNormTmp be n)
+  let rs := max (ceilDiv (res.size * res.b2k) a.b2k) (a.size + bSize)
+  bigBytes be n 1 rs + max (cnvByConstTmp be rs a.size bSize) (bigNormTmp be n)
 
 /-- `glwe_mul_const(cnv_offset, res, a, b)`: the accumulator has `a.size + b.len − cnv_offset_hi` limbs -/
 def treeGlweMulConst (be : BE) (n off : Nat) (res a : G) (bSize : Nat) : AllocTree :=
